@@ -737,6 +737,44 @@ def run(ck, ctx):
         ck.ob("R16.5", "every write below the run command writes the table created from the run's configuration",
               all(from_run_table(x) for e in writes for x in arms(e.node.args[0])), r.value, "run",
               f"{len(writes)} write(s) inspected")
+        # ---- R16.6: with intermediate writing on, the file compute() leaves behind is the table it returns
+        tabs = {id(c[3]) for c in inits} | {id(I.res(c[3], r.st)) for c in inits}
+        sw_in = ins.get("write_stages")
+
+        def on_table(e):
+            return any(id(x) in tabs for x in e.data.get("roots", ()) or ())
+
+        def about_switch(c):
+            return sw_in is not None and any(x is sw_in for x in walk([c]))
+        seq = []
+        for e in r.effects:
+            chain = e.funcs()
+            if "compute" not in chain:
+                continue
+            if e.kind in ("write", "mcall-mutate") and on_table(e):
+                seq.append(("m", e))
+            elif e.kind == "io-write" and e in writes:
+                seq.append(("w", e))
+        changes = [(k, e) for k, (kind, e) in enumerate(seq) if kind == "m"]
+        ck.floor("R16.6", len(changes), 2, "changes to the results table below compute()")
+        lost = []
+        for k, e in changes:
+            have = {(I.g.vn(c), pol) for c, pol in e.pc}
+            ok = False
+            for kind, w in seq[k + 1:]:
+                if kind == "w" and all((I.g.vn(c), pol) in have or about_switch(c) for c, pol in w.pc):
+                    ok = True
+                    break
+            if not ok:
+                lost.append(e)
+        for e in lost[:4]:
+            ck.ob("R16.6", "a change to the results table below compute() is followed by a staged write of the table",
+                  False, e.node if e.node is not None else r.value, e.funcs()[-1],
+                  f"{e.where()}: {g.show(e.data.get('idx'), 1) if hasattr(e.data.get('idx'), 'op') else e.data.get('name', '')} "
+                  "is not in the file the staged writer leaves behind")
+        ck.ob("R16.6", "with intermediate writing enabled, every column and header value compute() puts into the table "
+              "is followed by a write of the table (the staged file ends up holding the returned table)", not lost,
+              r.value, "compute", f"{len(changes)} change(s), {sum(1 for k_, _ in seq if k_ == 'w')} staged write(s)")
     ck.guard(r164, "R16.4")
 
 
